@@ -1692,6 +1692,14 @@ def gen_area(repo, spec, common, cenv):
         tree = ast.parse((src / rel).read_text())
     except (OSError, SyntaxError) as ex:
         raise Fail("cannot parse: %s" % ex, file=rel)
+    # a function equal to its validated baseline up to a bijective renaming of its bound names is read with the baseline's
+    # spelling (tools/alpha.py, shared with gen_lean): the generated text, and with it the build, does not change
+    try:
+        import alpha
+
+        alpha.normalise(tree, rel)
+    except ImportError:
+        pass
     try:
         consts, _found = gen_lean.module_consts(tree, cenv)
     except Fail as f:
@@ -1779,8 +1787,12 @@ def gen_area(repo, spec, common, cenv):
     return "\n".join(lines), meta
 
 
-def gen(repo, outdir):
-    """-> (changed files, {area: {function: meta}})"""
+def gen(repo, outdir, failures=None):
+    """-> (changed files, {area: {function: meta}}).
+    `failures`: when a dict is passed, an area with a function that left the subset no longer aborts the whole translation:
+    the failure is recorded (`failures[area] = "file:line: message"`), that area's file is put back to the committed
+    (validated) text, every other area is generated as usual.  Only the properties whose proofs import `Zc.GenFn.<area>`
+    have their tie broken (decided by `check`)."""
     common, specs = load_specs()
     src = pathlib.Path(repo) / "src" / "zeroconf"
     try:
@@ -1789,7 +1801,15 @@ def gen(repo, outdir):
         raise Fail("cannot parse: %s" % ex, file="const.py")
     files, metas = {}, {}
     for spec in specs:
-        text, meta = gen_area(repo, spec, common, cenv)
+        try:
+            text, meta = gen_area(repo, spec, common, cenv)
+        except Fail as f:
+            if failures is None:
+                raise
+            failures[spec.AREA] = "%s:%s: %s" % (f.file or spec.SOURCE, getattr(f.node, "lineno", "?") if f.node is not None else "?", f.msg)
+            files[spec.AREA + ".lean"] = None
+            metas[spec.AREA] = {}
+            continue
         files[spec.AREA + ".lean"] = text
         metas[spec.AREA] = meta
     outdir = pathlib.Path(outdir)
@@ -1797,6 +1817,15 @@ def gen(repo, outdir):
     changed = []
     for name, text in files.items():
         p = outdir / name
+        if text is None:
+            # keeps its committed (validated) text
+            import subprocess
+
+            r = subprocess.run(["git", "show", "HEAD:lean/Zc/GenFn/%s" % name], cwd=str(ROOT), stdout=subprocess.PIPE, stderr=subprocess.DEVNULL)
+            if r.returncode == 0 and (not p.exists() or p.read_bytes() != r.stdout):
+                p.write_bytes(r.stdout)
+                changed.append(name + "(committed)")
+            continue
         if not p.exists() or p.read_text() != text:
             p.write_text(text)
             changed.append(name)
